@@ -22,11 +22,20 @@ WeakBinary(x, y) ==
   \cup (IF (Thorough \/ Api \in {"Add", "Subtract", "Multiply"}) /\ IsPrimT(x.ty) /\ IsPrimT(y.ty)
         THEN {<<w1, w2>> : w1 \in Full1(x), w2 \in Full1(y)}
         ELSE {<<w1, w2>> : w1 \in Lite1(x), w2 \in Lite1(y)})
-WeakTuples(a) == IF Len(a) = 1 THEN WeakUnary(a[1]) ELSE WeakBinary(a[1], a[2])
+IsLmV(v) == v.st = "k" /\ v.ty.k = "number" /\ Has(v.v, "lm")
+WeakTuples(a) == IF Len(a) = 1 THEN WeakUnary(a[1])
+                 ELSE IF Len(a) = 2 /\ (IsLmV(a[1]) # IsLmV(a[2])) /\ \E i \in 1..2 : Has(a[i].v, "dec")       \* SameDec: weaken the ordered operand only
+                      THEN (IF IsLmV(a[1]) THEN {<<w, a[2]>> : w \in Full1(a[1])} ELSE {<<a[1], w>> : w \in Full1(a[2])})
+                 ELSE WeakBinary(a[1], a[2])
 
 NoLm(a) == \A i \in 1..Len(a) : ~(IsNumK(a[i]) /\ Has(a[i].v, "lm"))
 Tuples0 == IF Api \in EqOps THEN UNION {EqPairs(t) : t \in EqTypes} ELSE ArgTuples(Api)
-Tuples == IF Mode = "call" THEN Tuples0 ELSE {a \in Tuples0 : NoLm(a)}      \* landmark operands: single calls only (their interval arithmetic has no order in the model)
+\* one decimal held at 512 bits (a small landmark, ordered in the model: it is the operand that gets weakened) compared with the same decimal
+\* held as a float64 (equal for cty, a different rational; left as it is)
+SameDec == IF Api \in NumCmp /\ Mode = "weak"
+           THEN {<<NumK([lm |-> "tenth"]), K(TNum, [dec |-> "1/10", rep |-> 1])>>, <<K(TNum, [dec |-> "1/10", rep |-> 1]), NumK([lm |-> "tenth"])>>,
+                 <<NumK([lm |-> "third"]), K(TNum, [dec |-> "1/3", rep |-> 1])>>, <<K(TNum, [dec |-> "1/3", rep |-> 1]), NumK([lm |-> "third"])>>} ELSE {}
+Tuples == (IF Mode = "call" THEN Tuples0 ELSE {a \in Tuples0 : NoLm(a)}) \cup SameDec      \* landmark operands: single calls only (their interval arithmetic has no order in the model)
 
 \* One output line per concrete operand tuple, carrying the set of its variants
 \* (weakened tuples / mark placements); the harness expands them.  (A single flat set of
